@@ -158,6 +158,9 @@ func (m *keyModel) proj(e ast.Expr) *projRef {
 			}
 			return render(x.X) + "." + x.Sel.Name
 		case *ast.CallExpr:
+			if tv, ok := m.info.Types[x.Fun]; ok && tv.IsType() && len(x.Args) == 1 {
+				return render(x.Args[0]) // a conversion does not change which projection this is
+			}
 			var args []string
 			for _, a := range x.Args {
 				args = append(args, render(a))
@@ -192,6 +195,7 @@ type absElem map[string]int
 type keyEval struct {
 	m    *keyModel
 	a, b absElem
+	brk  string // label of a pending break
 }
 
 func (ev *keyEval) val(pr *projRef) int {
@@ -295,9 +299,50 @@ func (m *keyModel) note(canon string, k projKind) {
 }
 
 // stmts interprets a statement list; returns (result, returned, ok).
+// assign binds locals to projections (pairwise, or one tuple-valued source).
+func (ev *keyEval) assign(lhs, rhs []ast.Expr) bool {
+	m := ev.m
+	if len(rhs) != 1 && len(rhs) != len(lhs) {
+		m.fail("unsupported assignment")
+		return false
+	}
+	for i, l := range lhs {
+		id, ok := l.(*ast.Ident)
+		if !ok {
+			m.fail("unsupported assignment target")
+			return false
+		}
+		if id.Name == "_" {
+			continue
+		}
+		src := rhs[0]
+		if len(rhs) > 1 {
+			src = rhs[i]
+		}
+		pr := m.proj(src)
+		if pr == nil {
+			m.fail("assignment from a non-projection: %s", types.ExprString(src))
+			return false
+		}
+		obj := m.info.Defs[id]
+		if obj == nil {
+			obj = m.info.Uses[id]
+		}
+		canon := pr.canon
+		if len(rhs) == 1 && len(lhs) > 1 {
+			canon = fmt.Sprintf("%s#%d", pr.canon, i)
+		}
+		m.locals[obj] = &projRef{pr.param, canon}
+	}
+	return true
+}
+
 func (ev *keyEval) stmts(list []ast.Stmt) (bool, bool, bool) {
 	m := ev.m
 	for _, s := range list {
+		if ev.brk != "" {
+			return false, false, true
+		}
 		switch x := s.(type) {
 		case *ast.ReturnStmt:
 			if len(x.Results) != 1 {
@@ -334,34 +379,52 @@ func (ev *keyEval) stmts(list []ast.Stmt) (bool, bool, bool) {
 				}
 			}
 		case *ast.AssignStmt:
-			if len(x.Rhs) != 1 {
-				m.fail("unsupported assignment")
+			if !ev.assign(x.Lhs, x.Rhs) {
 				return false, false, false
 			}
-			pr := m.proj(x.Rhs[0])
-			if pr == nil {
-				m.fail("assignment from a non-projection: %s", types.ExprString(x.Rhs[0]))
+		case *ast.DeclStmt:
+			gd, isGen := x.Decl.(*ast.GenDecl)
+			if !isGen || gd.Tok != token.VAR {
+				m.fail("unsupported declaration")
 				return false, false, false
 			}
-			for i, lhs := range x.Lhs {
-				id, ok := lhs.(*ast.Ident)
-				if !ok {
-					m.fail("unsupported assignment target")
+			for _, sp := range gd.Specs {
+				vs := sp.(*ast.ValueSpec)
+				if len(vs.Values) == 0 {
+					continue // zero value; assigned later
+				}
+				var lhs []ast.Expr
+				for _, nm := range vs.Names {
+					lhs = append(lhs, nm)
+				}
+				if !ev.assign(lhs, vs.Values) {
 					return false, false, false
 				}
-				if id.Name == "_" {
-					continue
-				}
-				obj := m.info.Defs[id]
-				if obj == nil {
-					obj = m.info.Uses[id]
-				}
-				canon := pr.canon
-				if len(x.Lhs) > 1 {
-					canon = fmt.Sprintf("%s#%d", pr.canon, i)
-				}
-				m.locals[obj] = &projRef{pr.param, canon}
 			}
+		case *ast.LabeledStmt:
+			// the normaliser's single-iteration wrapper: L: for { body; break L }
+			fs, isFor := x.Stmt.(*ast.ForStmt)
+			if !isFor || fs.Cond != nil || fs.Init != nil || fs.Post != nil {
+				m.fail("unsupported labelled statement")
+				return false, false, false
+			}
+			v, ret, ok := ev.stmts(fs.Body.List)
+			if !ok || ret {
+				return v, ret, ok
+			}
+			if ev.brk != x.Label.Name {
+				m.fail("labelled loop that does not end in a break of its own label")
+				return false, false, false
+			}
+			ev.brk = ""
+		case *ast.BranchStmt:
+			if x.Tok != token.BREAK || x.Label == nil {
+				m.fail("unsupported branch statement")
+				return false, false, false
+			}
+			ev.brk = x.Label.Name
+			return false, false, true
+		case *ast.EmptyStmt:
 		case *ast.BlockStmt:
 			v, ret, ok := ev.stmts(x.List)
 			if !ok || ret {
